@@ -570,7 +570,9 @@ class FloatType(Type):
 @definetype(bool)
 class BoolType(Type):
     def validate(self, value):
-        return bool(value)
+        if not isinstance(value, bool):
+            raise TypeError(f"Value of type {type(value)} is not a boolean")
+        return value
 
 
 @definetype(Path)
